@@ -251,16 +251,24 @@ def hexlines(b):
     return [" ".join("%02x" % x for x in b[i:i + 32]) for i in range(0, len(b), 32)]
 
 
-def gen_diskdump_pt(rng, work, tag):
+def gen_diskdump_pt(rng, work, tag, far=False):
     """x86_64 Linux diskdump with a real 4-level page table in the dumped memory
     (root found through VMCOREINFO SYMBOL(init_level4_pgt) and phys_base = 0), so
     that KVADDR reads in the vmalloc range walk the tables through addrxlat's
     4-slot read cache and pin page-cache entries, while KVADDR reads in the direct
     mapping are linear.  Several PTE pages: one walk sequence touches more than 4
-    distinct table pages."""
+    distinct table pages.
+    far=True: the page-table pages of one level lie 2^16, 2^31, 2^32 or 2*2^32 bytes apart
+    (addresses that collide under a narrowing cast of the read cache's offset computation) and
+    use the same entry indices with different targets."""
     import struct
     V = 0xffffc90000000000
     pages = {}                        # pfn -> bytes
+    apart = [0x10, 0x80000, 0x100000, 0x100000, 0x200000]      # in pages
+
+    def place(pfn, k):
+        """frame of the k-th table page of a level"""
+        return pfn if (not far or k == 0) else pfn + rng.choice(apart) * k
 
     def table(entries):
         b = bytearray(PAGE)
@@ -269,17 +277,18 @@ def gen_diskdump_pt(rng, work, tag):
         return bytes(b)
 
     # pfn 2 PGD, 3 PUD, 4..5 PMD, 6.. PTE pages; data frames from 0x20
-    npmd = rng.choice([1, 2])
+    npmd = 2 if far else rng.choice([1, 2])
     pte_pfn = 6
+    npte = 0
     data_pfn = 0x20
     vaddrs = []
     pud = {}
     methods = {}
     for pi in range(npmd):
         pmd = {}
-        for mi in range(rng.choice([1, 2, 3])):
+        for mi in range(rng.choice([2, 3]) if far else rng.choice([1, 2, 3])):
             pte = {}
-            for ti in sorted(rng.sample(range(512), rng.choice([1, 2, 4]))):
+            for ti in sorted(rng.sample(range(6 if far else 512), rng.choice([2, 4] if far else [1, 2, 4]))):
                 present = rng.random() < 0.9
                 pte[ti] = (data_pfn << 12) | (0x63 if present else 0x62)
                 va = V + (pi << 30) + (mi << 21) + (ti << 12)
@@ -287,11 +296,16 @@ def gen_diskdump_pt(rng, work, tag):
                     pages[data_pfn] = None          # filled below
                 vaddrs.append(va)
                 data_pfn += rng.choice([1, 1, 2])
-            pages[pte_pfn] = table(pte)
-            pmd[mi] = (pte_pfn << 12) | 0x67
-            pte_pfn += 1
-        pages[4 + pi] = table(pmd)
-        pud[pi] = ((4 + pi) << 12) | 0x67
+            ppfn = place(pte_pfn, npte) if far else pte_pfn
+            if far:
+                npte += 1
+            else:
+                pte_pfn += 1
+            pages[ppfn] = table(pte)
+            pmd[mi] = (ppfn << 12) | 0x67
+        mpfn = place(4, pi)
+        pages[mpfn] = table(pmd)
+        pud[pi] = (mpfn << 12) | 0x67
     pages[3] = table(pud)
     pages[2] = table({(V >> 39) & 511: (3 << 12) | 0x67})
     for p in (0, 1):
@@ -305,7 +319,7 @@ def gen_diskdump_pt(rng, work, tag):
             lines += page_lines(rng, pfn)
         else:
             # a table page may be excluded from the dump (walk fails, or reads zeroes with zero_excluded)
-            m = "exclude" if (pfn >= 6 and rng.random() < 0.1) else rng.choice(["raw", "zlib"])
+            m = "exclude" if (pfn >= 6 and not far and rng.random() < 0.1) else rng.choice(["raw", "zlib"])
             lines.append("@0x%x %s" % (pfn * PAGE, m))
             lines += hexlines(pages[pfn])
         kinds[pfn] = m
@@ -317,8 +331,9 @@ def gen_diskdump_pt(rng, work, tag):
     npages = data_pfn + 2
     f = os.path.join(work, tag + ".dump")
     tool("mkdiskdump", f, "version = 3\narch_name = x86_64\nblock_size = %d\nphys_base = 0\nmax_mapnr = 0x%x\n"
-         "sub_hdr_size = 1\n%snr_cpus = 1\nVMCOREINFO = %s\nDATA = %s\n" % (PAGE, npages, UTS, vmci, data))
-    return {"fmt": "diskdump-pt", "files": [f], "ostype": "linux", "pages": kinds, "npages": npages,
+         "sub_hdr_size = 1\n%snr_cpus = 1\nVMCOREINFO = %s\nDATA = %s\n"
+         % (PAGE, max(pages) + 2, UTS, vmci, data))
+    return {"fmt": "diskdump-pt-far" if far else "diskdump-pt", "files": [f], "ostype": "linux", "pages": kinds, "npages": npages,
             "spaces": [2, 2, 2, 0, 1], "vbase": {2: 0xffff880000000000}, "vaddrs": vaddrs,
             "desc": "diskdump with page tables: %d mapped virtual pages, %d frames" % (len(vaddrs), len(pages))}
 
@@ -386,7 +401,20 @@ def gen_diskdump_split_never(rng, work, tag):
             return d
 
 
-GENS = {"diskdump": gen_diskdump, "diskdump-pt": gen_diskdump_pt, "elf": gen_elf, "lkcd": gen_lkcd,
+def gen_diskdump_pt_far(rng, work, tag):
+    return gen_diskdump_pt(rng, work, tag, far=True)
+
+
+def gen_diskdump_bigmap(rng, work, tag):
+    """A diskdump whose page bitmap is larger than the file cache has slots (frames beyond
+    2 GiB): one fixed history, see gen_history (finding C04-bitmap-chunk-busy)."""
+    d = gen_diskdump_pt(rng, work, tag, far=True)
+    d["fmt"] = "diskdump-bigmap"
+    return d
+
+
+GENS = {"diskdump": gen_diskdump, "diskdump-pt": gen_diskdump_pt, "diskdump-pt-far": gen_diskdump_pt_far,
+        "diskdump-bigmap": gen_diskdump_bigmap, "elf": gen_elf, "lkcd": gen_lkcd,
         "lkcd-faroff": gen_lkcd_faroff, "sadump": gen_sadump,
         "diskdump-split-never": gen_diskdump_split_never}
 
@@ -422,6 +450,10 @@ def gen_history(rng, d, nops):
             a += d.get("vbase", {}).get(2, 0)
         return a
 
+    if d["fmt"] == "diskdump-bigmap":
+        # file.mmap_policy = never, then the lazily read memory.pagemap: its bitmap is one chunk of
+        # more pages than the read(2) fallback cache has slots
+        return ["M:0", "Bs:m:0", "A:memory.pagemap"]
     if d["fmt"] == "diskdump-split-never":
         ops.append("M:0")
         if rng.random() < 0.5:
@@ -432,6 +464,8 @@ def gen_history(rng, d, nops):
             ops.append("R:1:%x:%x" % (p * PAGE, rng.choice([8, PAGE])))
     for _ in range(nops):
         k = rng.random()
+        if d["fmt"] == "diskdump-pt-far" and 0.83 <= k < 0.93:
+            k = 0.05            # no policy changes here: see diskdump-bigmap
         if d["fmt"] == "diskdump-split-never" and 0.83 <= k < 0.93:
             k = 0.1                                        # stay on the read(2) path
         sp = rng.choice(d["spaces"])
